@@ -370,6 +370,29 @@ Proof.
   apply live_zero; [exact Hdead| |]; rewrite Hfr; try assumption; intros i _ Hx; discriminate Hx.
 Qed.
 
+(* the same without the [tracked] filter of the harness' live counter: NO storage holds an object afterwards *)
+Lemma any_live_false : forall n s,
+  (forall i, (i < n)%nat -> cells s (CW (WI i)) = Dead) -> cells s (CW WParam) = Dead -> cells s CTmp = Dead ->
+  any_live n s = false.
+Proof.
+  intros n s Hw Hp Ht. unfold any_live. rewrite Hp, Ht, !orb_false_r.
+  assert (H : forall l, (forall i, In i l -> (i < n)%nat) ->
+              existsb (fun i => match cells s (CW (WI i)) with Live _ _ => true | Dead => false end) l = false).
+  { induction l as [|i l IH]; intros Hl; cbn [existsb]; [reflexivity|].
+    rewrite (Hw i (Hl i (or_introl eq_refl))), IH; [reflexivity|]. intros j Hj. apply Hl. right. exact Hj. }
+  apply H. intros i Hi. apply in_seq in Hi. lia.
+Qed.
+Theorem ipf_nothing_alive : forall stateless tracked n ops,
+  exists s' s'', run_m stateless tracked n init_state ops = Good (s', snd (run_s stateless tracked n init_astate ops))
+                 /\ destroy_all n s' = Good s'' /\ any_live n s'' = false.
+Proof.
+  intros stateless tracked n ops.
+  destruct (ipf_history_refines stateless tracked n ops) as [s' [Hrun [[Hi [Hpv [Hpc Ht]]] Hrel]]].
+  destruct (destroy_all_ok n s' (fun i _ => Hi i)) as [s'' [Hd [Hdead [Hfr Hcalls]]]].
+  exists s', s''. repeat split; try assumption.
+  apply any_live_false; [exact Hdead| |]; rewrite Hfr; try assumption; intros i _ Hx; discriminate Hx.
+Qed.
+
 (** the informal clauses of the property, on the model, from any reachable (invariant) state *)
 Definition abs_of (s : state) : astate := mkas (abs_slot s) (calls s).
 Lemma rel_abs_of : forall s, rel s (abs_of s).
